@@ -1032,6 +1032,54 @@ def c02_deriv(case):
     finally:
         reset_table()
 
+
+
+def c01_writer_graph(case):
+    """the decoder-reachable witness for a writer fault: build the same graph through selfies.decoder"""
+    from selfies import mol_graph as mg
+    from selfies.utils import smiles_utils as su
+    reset_table()
+    n1, n2 = case["natoms"]
+    n = n1 + n2
+    mol = mg.MolecularGraph()
+    for i in range(n):
+        mol.add_atom(mg.Atom("C", False), i in (0, n1))
+    chain = set()
+    for i in range(n):
+        if i + 1 < n and i + 1 != n1:
+            mol.add_bond(i, i + 1, 1, None)
+            chain.add((i, i + 1))
+    made = [0] * n
+    for l, r in case["rings"]:
+        mol.add_ring_bond(a=l, a_stereo=None, a_pos=made[l], b=r, b_stereo=None, b_pos=made[r], order=1)
+        made[l] += 1
+        made[r] += 1
+    out = su.mol_to_smiles(mol)
+    m = oread.read_smiles(out)
+    want = chain | set(map(tuple, case["rings"]))
+    if m.faults or set(m.bonds) != want or len(m.atoms) != n:
+        # public-API witness: the same graph derived by the decoder
+        x = ""
+        sym = []
+        for i in range(n):
+            if i == n1:
+                sym.append(".")
+            sym.append("[C]")
+            for (l, r) in case["rings"]:
+                if r == i:
+                    q = r - l - 1
+                    sym.append("[Ring1]" if q < 16 else "[Ring2]")
+                    from . import docs
+                    sym.append(docs.DOC_INDEX[q] if q < 16 else docs.DOC_INDEX[q // 16])
+                    if q >= 16:
+                        sym.append(docs.DOC_INDEX[q % 16])
+        x = "".join(sym)
+        pub = _dec(x)
+        return bad("C01:writer:" + (m.faults[0][0] if m.faults else "bond-set"),
+                   "mol_to_smiles writes %r for chains %d+%d with ring bonds %r (reads back as bonds %s, faults %s); decoder(%r) -> %s"
+                   % (out, n1, n2, case["rings"], sorted(m.bonds), m.faults[:2], x, pub))
+    return ok()
+
 # ---------------------------------------------------------------------------
 
 KINDS = {
@@ -1061,6 +1109,7 @@ KINDS = {
     "matching": c05_matching,
     "kek_order": c05_order,
     "deriv": c02_deriv,
+    "writer_graph": c01_writer_graph,
     "state_fn": lemma_state_fn,
     "ring_step": lemma_ring_step,
 }
